@@ -518,9 +518,11 @@ impl Shared {
             let lp = is_loop_site(site);
             let t = &mut st.th[tid];
             if kind == rv::KIND_SPIN { t.streak += 1 } else if !lp { t.streak = 0 }
-            if site == H_SPIN { t.h_streak += 1 } else if site == H_OP { t.h_streak = 0 }
+            if site == H_SPIN { t.h_streak += 1 }
             t.last_site = site;
         }
+        // somebody completed an operation: whatever the others are waiting for at harness level may have become true
+        if site == H_OP { for t in st.th.iter_mut() { t.h_streak = 0 } }
         if st.step > st.cfg.max_steps {
             self.do_abort(&mut st, Outcome::StepCap);
             self.freeze(st, tid);
@@ -566,7 +568,7 @@ impl Shared {
         if flag.take() { return true }
         st.step += 1;
         st.th[tid].status = Status::Parked;
-        st.th[tid].streak = 0; st.th[tid].h_streak = 0;
+        st.th[tid].streak = 0; for t in st.th.iter_mut() { t.h_streak = 0 }
         let next = st.pick_next(tid, rv::KIND_POINT);
         if next == tid {
             // quiescence was declared and I was elected to wind down first
@@ -588,7 +590,7 @@ impl Shared {
         if st.abort { self.freeze(st, tid) }
         st.step += 1;
         st.th[tid].status = Status::Gated;
-        st.th[tid].streak = 0; st.th[tid].h_streak = 0;
+        st.th[tid].streak = 0; for t in st.th.iter_mut() { t.h_streak = 0 }
         let next = st.pick_next(tid, rv::KIND_POINT);
         if next == tid { st.th[tid].status = Status::Runnable; return true }
         let st = self.hand_over(st, tid, next);
@@ -603,6 +605,7 @@ impl Shared {
         if st.abort { st.th[tid].status = Status::Finished; st.done_threads += 1; self.main.notify_all(); return }
         st.th[tid].status = Status::Finished;
         st.done_threads += 1;
+        for t in st.th.iter_mut() { t.h_streak = 0 }
         let next = st.pick_next(tid, rv::KIND_POINT);
         let _st = self.hand_over(st, tid, next);
         self.main.notify_all();
@@ -808,4 +811,14 @@ pub fn site_hits_json() -> J {
         if v > 0 { o.set(*name, J::i(v as i64)); }
     }
     o
+}
+
+/// development aid: prints the (step, thread, site) trace of a run recorded with `RunCfg::trace`
+pub fn dump_trace(rep: &Report) {
+    eprintln!("--- trace ({} steps): step:tid@site", rep.trace.len());
+    let mut line = String::new();
+    let skip = rep.trace.len().saturating_sub(1500);
+    for (i, (t, s)) in rep.trace.iter().enumerate().skip(skip) { line.push_str(&format!("{}:t{}@{} ", i, t, site_name(*s))); if line.len() > 150 { eprintln!("{line}"); line.clear() } }
+    eprintln!("{line}");
+    eprintln!("--- outcome: {}", rep.outcome_json().to_string());
 }
